@@ -367,7 +367,7 @@ class Session:
                     return getattr(self._f, k)
 
             def open_proxy(path, mode="r", *a, **kw):
-                if "w" in mode or "a" in mode or "+" in mode:
+                if "w" in mode or "a" in mode or "+" in mode or "x" in mode:
                     k = len(me.write_opens)
                     me.write_opens.append(str(path))
                     if me.file_fault_at == k:
